@@ -49,7 +49,7 @@ func TestMain(m *testing.M) {
 		evid.Spec{Name: "TestReplay", Kind: "plain", QuickShards: 1, ThoroughShards: 1},
 		evid.Spec{Name: "TestModelSelf", Kind: "plain", QuickShards: 1, ThoroughShards: 1},
 		evid.Spec{Name: "TestExhaustiveTrees", Kind: "plain", QuickShards: 8, ThoroughShards: 16, TimeoutS: 3000},
-		evid.Spec{Name: "TestPropRandomTrees", Kind: "rapid", Quick: 1600, Thorough: 24000, QuickShards: 8, ThoroughShards: 16},
+		evid.Spec{Name: "TestPropRandomTrees", Kind: "rapid", Quick: 1600, Thorough: 24000, QuickShards: 16, ThoroughShards: 16},
 		evid.Spec{Name: "TestPropSmallTrees", Kind: "rapid", Quick: 8000, Thorough: 400000, QuickShards: 4, ThoroughShards: 16},
 		evid.Spec{Name: "TestPropCLI", Kind: "rapid", Quick: 160, Thorough: 3200, QuickShards: 8, ThoroughShards: 16, TimeoutS: 3000},
 	)
